@@ -238,7 +238,8 @@ def corruptions(S, rng, n=12):
         elif k == 'unbalanced':
             d = rng.choice(list(S.domains))
             new.append(('comp', 'strand ub = %s' % d))
-            new.append(('sc', 'structure UB = ub + ub : %s' % rng.choice([')+(', '(+(', ')+)', '.+)'])))
+            # also: the right number of characters with the strand break missing, misplaced or doubled
+            new.append(('sc', 'structure UB = ub + ub : %s' % rng.choice([')+(', '(+(', ')+)', '.+)', '...', '(.)', '+..', '..+', '++.', '. .'])))
         elif k == 'no-rate':
             c = rng.choice(list(S.complexes) or ['A'])
             new.append(('rxn', 'reaction %s -> %s' % (c, c)))
